@@ -1,1 +1,577 @@
-/-! # C08 — property theorems (stub: not built yet) -/
+import KM.Lemmas.Admin
+import KM.Gen.C08
+/-! # C08 — users manage only themselves; administration needs admin rights (+ U2F)
+
+Property theorems only. `authorize` transcribes the authorisation part of each handler
+(`KM.Admin.spec` lists the source facts it was transcribed from; `c08_sites` re-checks them
+against the regenerated table on every run). `IsAdmin` / `IsAutomationIdentity` are the
+readable role predicates of the property text: configured by name, or the directory answers and
+places the user in a configured group. -/
+namespace KM.Admin
+
+/-- **Self**: whoever is not an administrator can only ever act on the own profile, on every
+endpoint except the role-certificate one (whose "target" is an automation identity, `c08_role`). -/
+theorem c08_self (op : Op) (actor : Name) (level : Nat) (target : Name) (cfg : Cfg)
+    (groups : Groups) (eff : Name) (hop : op ≠ .roleCert)
+    (hna : ¬ IsAdmin cfg groups actor)
+    (h : authorize op actor level target cfg groups = .pass eff) : eff = actor := by
+  have hf : isAdminFresh cfg groups actor = false := by
+    rw [isAdminFresh_eq]
+    cases hb : isAdmin cfg groups actor with
+    | false => rfl
+    | true => exact absurd ((isAdmin_iff _ _ _).mp hb) hna
+  unfold authorize authorizeV at h
+  rw [hf] at h
+  split at h
+  · cases h
+  · cases op with
+    | viewProfile =>
+      rcases gateProfile_pass h with ⟨_, he⟩ | ⟨_, _, ha⟩
+      · exact he
+      · cases ha
+    | manageU2F a =>
+      obtain ⟨he, ht | ⟨ha, _⟩⟩ := gateToken_pass h
+      · rw [he, ht]
+      · cases ha
+    | manageTOTP a =>
+      obtain ⟨he, ht | ⟨ha, _⟩⟩ := gateToken_pass h
+      · rw [he, ht]
+      · cases ha
+    | totpGenerate => injection h with h; exact h.symm
+    | totpValidateNew => injection h with h; exact h.symm
+    | u2fRegBegin =>
+      obtain ⟨he, ht | ⟨ha, _⟩⟩ := gateToken_pass h
+      · rw [he, ht]
+      · cases ha
+    | u2fRegFinish =>
+      obtain ⟨he, ht | ⟨ha, _⟩⟩ := gateToken_pass h
+      · rw [he, ht]
+      · cases ha
+    | waRegBegin =>
+      obtain ⟨he, ht | ⟨ha, _⟩⟩ := gateToken_pass h
+      · rw [he, ht]
+      · cases ha
+    | waRegFinish =>
+      obtain ⟨he, ht | ⟨ha, _⟩⟩ := gateToken_pass h
+      · rw [he, ht]
+      · cases ha
+    | listUsers => cases (gateAdmin_pass h).2
+    | addUser => cases (gateAdmin_pass h).2
+    | deleteUser => cases (gateAdmin_pass h).2
+    | bootstrapOTP => cases (gateAdmin_pass h).2
+    | roleCert => exact absurd rfl hop
+
+/-- **Admin**: listing, adding, deleting users and issuing bootstrap OTPs, as well as viewing a
+profile named in the URL, get past the gate only for an administrator. -/
+theorem c08_admin (op : Op) (actor : Name) (level : Nat) (target : Name) (cfg : Cfg)
+    (groups : Groups) (eff : Name)
+    (hop : op.userAdmin = true ∨ (op = .viewProfile ∧ target ≠ []))
+    (h : authorize op actor level target cfg groups = .pass eff) : IsAdmin cfg groups actor := by
+  apply (isAdmin_iff _ _ _).mp
+  rw [← isAdminFresh_eq]
+  unfold authorize authorizeV at h
+  split at h
+  · cases h
+  · rcases hop with hop | ⟨hop, ht⟩
+    · cases op <;> simp [Op.userAdmin] at hop <;> exact (gateAdmin_pass h).2
+    · subst hop
+      rcases gateProfile_pass h with ⟨ht', _⟩ | ⟨_, _, ha⟩
+      · exact absurd ht' ht
+      · exact ha
+
+/-- viewing somebody else's profile needs an administrator -/
+theorem c08_admin_view_other (actor : Name) (level : Nat) (target : Name) (cfg : Cfg)
+    (groups : Groups) (eff : Name)
+    (h : authorize .viewProfile actor level target cfg groups = .pass eff) (hne : eff ≠ actor) :
+    IsAdmin cfg groups actor ∧ eff = target := by
+  have h' := h
+  unfold authorize authorizeV at h
+  split at h
+  · cases h
+  · rcases gateProfile_pass h with ⟨_, he⟩ | ⟨ht, he, _⟩
+    · exact absurd he hne
+    · exact ⟨c08_admin .viewProfile actor level target cfg groups eff (Or.inr ⟨rfl, ht⟩) h', he⟩
+
+/-- **Admin + U2F**: changing or registering ANOTHER user's second-factor tokens gets past the gate
+only for an administrator whose own session carries the U2F bit (bit 3 = `AuthTypeU2F`). -/
+theorem c08_admin_u2f (op : Op) (actor : Name) (level : Nat) (target : Name) (cfg : Cfg)
+    (groups : Groups) (eff : Name) (hop : op.tokenOp = true)
+    (h : authorize op actor level target cfg groups = .pass eff) (hne : eff ≠ actor) :
+    IsAdmin cfg groups actor ∧ level.testBit 3 = true ∧ eff = target := by
+  unfold authorize authorizeV at h
+  split at h
+  · cases h
+  · have key : eff = target ∧ (target = actor ∨
+        (isAdminFresh cfg groups actor = true ∧ u2fBit level = true)) := by
+      cases op <;> simp [Op.tokenOp] at hop <;> exact gateToken_pass h
+    obtain ⟨he, ht | ⟨ha, hu⟩⟩ := key
+    · exact absurd (he.trans ht) hne
+    · rw [isAdminFresh_eq] at ha
+      exact ⟨(isAdmin_iff _ _ _).mp ha, (u2fBit_iff level).mp hu, he⟩
+
+/-- **Role certificates**: issued only to an administrator or automation administrator, only for
+the identity named in the request, and only if that is a configured automation identity. -/
+theorem c08_role (actor : Name) (level : Nat) (target : Name) (cfg : Cfg) (groups : Groups)
+    (eff : Name) (h : authorize .roleCert actor level target cfg groups = .pass eff) :
+    (IsAdmin cfg groups actor ∨ actor ∈ cfg.automationAdmins) ∧ eff = target ∧
+      IsAutomationIdentity cfg groups eff := by
+  unfold authorize authorizeV at h
+  split at h
+  · cases h
+  · obtain ⟨he, _, ha, hau⟩ := gateRole_pass h
+    refine ⟨?_, he, ?_⟩
+    · rcases ha with ha | ha
+      · rw [isAdminFresh_eq] at ha
+        exact Or.inl ((isAdmin_iff _ _ _).mp ha)
+      · exact Or.inr ha
+    · rw [he]
+      apply (isAutomationIdentity_iff _ _ _).mp
+      unfold isAutomationIdentity
+      rw [hau]; rfl
+
+/-- every request that gets past a gate carries a session level the endpoint accepts -/
+theorem c08_session (op : Op) (actor : Name) (level : Nat) (target : Name) (cfg : Cfg)
+    (groups : Groups) (eff : Name) (h : authorize op actor level target cfg groups = .pass eff) :
+    level &&& requiredLevel cfg op ≠ 0 := by
+  unfold authorize authorizeV at h
+  split at h
+  · cases h
+  · assumption
+
+/-- no handler ever acts on a third party: the name used is the caller's or the one the request names -/
+theorem c08_no_third_party (op : Op) (actor : Name) (level : Nat) (target : Name) (cfg : Cfg)
+    (groups : Groups) (eff : Name) (h : authorize op actor level target cfg groups = .pass eff) :
+    eff = actor ∨ eff = target := by
+  unfold authorize authorizeV at h
+  split at h
+  · cases h
+  · cases op with
+    | viewProfile =>
+      rcases gateProfile_pass h with ⟨_, he⟩ | ⟨_, he, _⟩
+      · exact Or.inl he
+      · exact Or.inr he
+    | manageU2F a => exact Or.inr (gateToken_pass h).1
+    | manageTOTP a => exact Or.inr (gateToken_pass h).1
+    | totpGenerate => injection h with h; exact Or.inl h.symm
+    | totpValidateNew => injection h with h; exact Or.inl h.symm
+    | u2fRegBegin => exact Or.inr (gateToken_pass h).1
+    | u2fRegFinish => exact Or.inr (gateToken_pass h).1
+    | waRegBegin => exact Or.inr (gateToken_pass h).1
+    | waRegFinish => exact Or.inr (gateToken_pass h).1
+    | listUsers => exact Or.inr (gateAdmin_pass h).1
+    | addUser => exact Or.inr (gateAdmin_pass h).1
+    | deleteUser => exact Or.inr (gateAdmin_pass h).1
+    | bootstrapOTP => exact Or.inr (gateAdmin_pass h).1
+    | roleCert => exact Or.inr (gateRole_pass h).1
+
+/-! ### the predicate the judge applies to what the real handlers did -/
+
+/-- **Judge predicate is the property**: an effect accepted by `effectAllowed` is the caller's own
+business, or is backed by exactly the rights the property text demands. -/
+theorem c08_effect_spec (cfg : Cfg) (groups : Groups) (op : Op) (actor : Name) (level : Nat)
+    (target : Name) :
+    (∀ u, effectAllowed cfg groups op actor level target (.changed u) = true → u ≠ actor →
+        u = target ∧ IsAdmin cfg groups actor ∧
+          ((op.tokenOp = true ∧ level.testBit 3 = true) ∨ op.userAdmin = true)) ∧
+    (∀ u, effectAllowed cfg groups op actor level target (.read u) = true → u ≠ actor →
+        op = .viewProfile ∧ u = target ∧ IsAdmin cfg groups actor) ∧
+    (effectAllowed cfg groups op actor level target .listed = true → IsAdmin cfg groups actor) ∧
+    (∀ cn, effectAllowed cfg groups op actor level target (.cert cn) = true →
+        cn = target ∧ (IsAdmin cfg groups actor ∨ actor ∈ cfg.automationAdmins) ∧
+          IsAutomationIdentity cfg groups cn) ∧
+    (statusAllowed cfg groups op actor = true → op.userAdmin = true → IsAdmin cfg groups actor) := by
+  refine ⟨?_, ?_, ?_, ?_, ?_⟩
+  · intro u h hne
+    unfold effectAllowed at h
+    have hua : (u == actor) = false := by simpa using hne
+    simp only [hua] at h
+    simp only [Bool.false_eq_true, if_false, Bool.and_eq_true, Bool.or_eq_true, beq_iff_eq] at h
+    obtain ⟨hut, h⟩ := h
+    refine ⟨hut, ?_⟩
+    rcases h with ⟨⟨ht, ha⟩, hu⟩ | ⟨hu, ha⟩
+    · exact ⟨(isAdmin_iff _ _ _).mp ha, Or.inl ⟨ht, (u2fBit_iff level).mp hu⟩⟩
+    · exact ⟨(isAdmin_iff _ _ _).mp ha, Or.inr hu⟩
+  · intro u h hne
+    unfold effectAllowed at h
+    have hua : (u == actor) = false := by simpa using hne
+    simp only [hua, Bool.false_or, Bool.and_eq_true, beq_iff_eq] at h
+    exact ⟨h.1.1, h.1.2, (isAdmin_iff _ _ _).mp h.2⟩
+  · intro h
+    unfold effectAllowed at h
+    simp only [Bool.and_eq_true] at h
+    exact (isAdmin_iff _ _ _).mp h.2
+  · intro cn h
+    unfold effectAllowed at h
+    simp only [Bool.and_eq_true, Bool.or_eq_true, beq_iff_eq] at h
+    obtain ⟨⟨⟨_, hc⟩, ha⟩, hi⟩ := h
+    refine ⟨hc, ?_, (isAutomationIdentity_iff _ _ _).mp hi⟩
+    rcases ha with ha | ha
+    · exact Or.inl ((isAdmin_iff _ _ _).mp ha)
+    · exact Or.inr (by simpa using ha)
+  · intro h hop
+    unfold statusAllowed at h
+    rw [hop] at h
+    exact (isAdmin_iff _ _ _).mp (by simpa using h)
+
+/-- **Model effects satisfy the property**: whatever the stored data and the rest of the request
+look like (`env`), every effect of an accepted request is one the judge predicate allows. -/
+theorem c08_effects (op : Op) (actor : Name) (level : Nat) (target : Name) (cfg : Cfg)
+    (groups : Groups) (env : Env) (effs : List Effect)
+    (h : outcome op (authorize op actor level target cfg groups) env = .done effs) :
+    (∀ e ∈ effs, effectAllowed cfg groups op actor level target e = true) ∧
+      statusAllowed cfg groups op actor = true := by
+  cases hd : authorize op actor level target cfg groups with
+  | deny w => rw [hd] at h; cases h
+  | pass eff =>
+    rw [hd] at h
+    have h3 := c08_no_third_party op actor level target cfg groups eff hd
+    have hadm : ∀ b : Bool, IsAdmin cfg groups actor → (b || isAdmin cfg groups actor) = true :=
+      fun b ha => by rw [(isAdmin_iff _ _ _).mpr ha]; simp
+    -- effect `changed eff` is fine for token operations and user administration
+    have hchg_tok : op.tokenOp = true →
+        effectAllowed cfg groups op actor level target (.changed eff) = true := by
+      intro hop
+      unfold effectAllowed
+      by_cases hea : eff = actor
+      · have hnu : op.userAdmin = false := by cases op <;> simp [Op.tokenOp, Op.userAdmin] at hop ⊢
+        simp [hea, hnu]
+      · obtain ⟨ha, hu, het⟩ := c08_admin_u2f op actor level target cfg groups eff hop hd hea
+        have hea' : (eff == actor) = false := by simpa using hea
+        simp [hea', het, hop, (isAdmin_iff _ _ _).mpr ha, (u2fBit_iff level).mpr hu]
+    have hchg_adm : op.userAdmin = true →
+        effectAllowed cfg groups op actor level target (.changed eff) = true := by
+      intro hop
+      have ha := c08_admin op actor level target cfg groups eff (Or.inl hop) hd
+      have het : eff = target := by
+        unfold authorize authorizeV at hd
+        split at hd
+        · cases hd
+        · cases op <;> simp [Op.userAdmin] at hop <;> exact (gateAdmin_pass hd).1
+      unfold effectAllowed
+      by_cases hea : eff = actor
+      · simp [hea, (isAdmin_iff _ _ _).mpr ha]
+      · have hea' : (eff == actor) = false := by simpa using hea
+        simp [hea', het, hop, (isAdmin_iff _ _ _).mpr ha]
+    have hstat_adm : op.userAdmin = true → statusAllowed cfg groups op actor = true := by
+      intro hop
+      have ha := c08_admin op actor level target cfg groups eff (Or.inl hop) hd
+      unfold statusAllowed
+      simp [(isAdmin_iff _ _ _).mpr ha]
+    have hstat_other : op.userAdmin = false → statusAllowed cfg groups op actor = true := by
+      intro hop; unfold statusAllowed; simp [hop]
+    have hself : eff = actor → op.userAdmin = false →
+        effectAllowed cfg groups op actor level target (.changed eff) = true := by
+      intro hea hop; unfold effectAllowed; simp [hea, hop]
+    cases op with
+    | viewProfile =>
+      simp only [outcome] at h
+      injection h with h; subst h
+      refine ⟨?_, hstat_other rfl⟩
+      intro e he
+      simp only [List.mem_singleton] at he
+      subst he
+      unfold effectAllowed
+      by_cases hea : eff = actor
+      · simp [hea]
+      · obtain ⟨ha, het⟩ := c08_admin_view_other actor level target cfg groups eff hd hea
+        simp [het, (isAdmin_iff _ _ _).mpr ha]
+    | manageU2F a =>
+      simp only [outcome] at h
+      split at h
+      · cases h
+      · split at h
+        · cases h
+        · injection h with h; subst h
+          exact ⟨fun e he => by simp only [List.mem_singleton] at he; subst he; exact hchg_tok rfl,
+            hstat_other rfl⟩
+    | manageTOTP a =>
+      simp only [outcome] at h
+      split at h
+      · cases h
+      · split at h
+        · cases h
+        · injection h with h; subst h
+          exact ⟨fun e he => by simp only [List.mem_singleton] at he; subst he; exact hchg_tok rfl,
+            hstat_other rfl⟩
+    | totpGenerate =>
+      simp only [outcome] at h
+      injection h with h; subst h
+      have hea : eff = actor := by
+        unfold authorize authorizeV at hd
+        split at hd
+        · cases hd
+        · injection hd with hd; exact hd.symm
+      exact ⟨fun e he => by simp only [List.mem_singleton] at he; subst he; exact hself hea rfl,
+        hstat_other rfl⟩
+    | totpValidateNew =>
+      simp only [outcome] at h
+      split at h
+      · cases h
+      · injection h with h; subst h
+        have hea : eff = actor := by
+          unfold authorize authorizeV at hd
+          split at hd
+          · cases hd
+          · injection hd with hd; exact hd.symm
+        exact ⟨fun e he => by simp only [List.mem_singleton] at he; subst he; exact hself hea rfl,
+          hstat_other rfl⟩
+    | u2fRegBegin =>
+      simp only [outcome] at h
+      injection h with h; subst h
+      exact ⟨fun e he => by simp only [List.mem_singleton] at he; subst he; exact hchg_tok rfl,
+        hstat_other rfl⟩
+    | waRegBegin =>
+      simp only [outcome] at h
+      injection h with h; subst h
+      exact ⟨fun e he => by simp only [List.mem_singleton] at he; subst he; exact hchg_tok rfl,
+        hstat_other rfl⟩
+    | u2fRegFinish =>
+      simp only [outcome] at h
+      split at h
+      · cases h
+      · injection h with h; subst h
+        exact ⟨fun e he => by simp only [List.mem_singleton] at he; subst he; exact hchg_tok rfl,
+          hstat_other rfl⟩
+    | waRegFinish =>
+      simp only [outcome] at h
+      split at h
+      · cases h
+      · injection h with h; subst h
+        exact ⟨fun e he => by simp only [List.mem_singleton] at he; subst he; exact hchg_tok rfl,
+          hstat_other rfl⟩
+    | listUsers =>
+      simp only [outcome] at h
+      injection h with h; subst h
+      have ha := c08_admin .listUsers actor level target cfg groups eff (Or.inl rfl) hd
+      refine ⟨?_, hstat_adm rfl⟩
+      intro e he
+      simp only [List.mem_singleton] at he
+      subst he
+      unfold effectAllowed
+      simp [(isAdmin_iff _ _ _).mpr ha]
+    | addUser =>
+      simp only [outcome] at h
+      split at h
+      · cases h
+      · injection h with h; subst h
+        exact ⟨fun e he => by simp only [List.mem_singleton] at he; subst he; exact hchg_adm rfl,
+          hstat_adm rfl⟩
+    | deleteUser =>
+      simp only [outcome] at h
+      split at h
+      · cases h
+      · split at h
+        · injection h with h; subst h
+          exact ⟨fun e he => by simp only [List.mem_singleton] at he; subst he; exact hchg_adm rfl,
+            hstat_adm rfl⟩
+        · injection h with h; subst h
+          exact ⟨fun e he => (by cases he), hstat_adm rfl⟩
+    | bootstrapOTP =>
+      simp only [outcome] at h
+      split at h
+      · cases h
+      · injection h with h; subst h
+        exact ⟨fun e he => by simp only [List.mem_singleton] at he; subst he; exact hchg_adm rfl,
+          hstat_adm rfl⟩
+    | roleCert =>
+      simp only [outcome] at h
+      injection h with h; subst h
+      obtain ⟨ha, het, hi⟩ := c08_role actor level target cfg groups eff hd
+      refine ⟨?_, hstat_other rfl⟩
+      intro e he
+      simp only [List.mem_singleton] at he
+      subst he
+      unfold effectAllowed
+      have hi' := (isAutomationIdentity_iff _ _ _).mpr hi
+      rcases ha with ha | ha
+      · simp [het ▸ hi', het, (isAdmin_iff _ _ _).mpr ha]
+      · simp [het ▸ hi', het, ha]
+
+/-! ### the admin cache -/
+
+/-- **Cache, general form**: for every history of clock advances and `IsAdminUser` calls (the
+directory answering or failing at will), a verdict returned at time `t` is either the zero entry's
+`false` (the directory has never answered for that user, and failed at some earlier call), or it is
+what the directory answered for that user at some `t' ≤ t`, and either `t − t' < maxDur` or the
+directory failed to answer a lookup for that user at some `t''` with `t − t'' < maxDur`. -/
+theorem c08_cache_outage (maxDur : Nat) (hmax : 0 < maxDur) (t0 : Nat) (evs : List Ev) :
+    ∀ r ∈ (crun maxDur (CState.init t0) evs).rets,
+      GoodRet maxDur (crun maxDur (CState.init t0) evs).consults r :=
+  (inv_run hmax evs (inv_init maxDur t0)).rets
+
+/-- **Cache, while the directory answers**: if every lookup that is attempted succeeds, each verdict
+returned at time `t` is the directory's own answer for that user from a lookup at some
+`t' ≤ t` with `t − t' < maxDur` — the verdict is re-evaluated at least every `maxDur`. -/
+theorem c08_cache (maxDur : Nat) (hmax : 0 < maxDur) (t0 : Nat) (evs : List Ev)
+    (hdir : ∀ u, Ev.call u none ∉ evs) :
+    ∀ r ∈ (crun maxDur (CState.init t0) evs).rets,
+      ∃ t', r.origin = some t' ∧ t' ≤ r.t ∧ r.t - t' < maxDur ∧
+        (⟨t', r.user, some r.verdict⟩ : Consult) ∈ (crun maxDur (CState.init t0) evs).consults := by
+  intro r hr
+  have hg := c08_cache_outage maxDur hmax t0 evs r hr
+  have hnf : NoFail (crun maxDur (CState.init t0) evs) :=
+    nofail_run evs (fun _ h => by cases h) hdir
+  unfold GoodRet at hg
+  cases ho : r.origin with
+  | none =>
+    rw [ho] at hg
+    obtain ⟨_, t'', _, hm⟩ := hg
+    exact absurd rfl (hnf _ hm)
+  | some t' =>
+    rw [ho] at hg
+    obtain ⟨h1, h2, h3⟩ := hg
+    refine ⟨t', rfl, h1, ?_, h2⟩
+    rcases h3 with h3 | ⟨t'', _, _, _, hm⟩
+    · exact h3
+    · exact absurd rfl (hnf _ hm)
+
+/-- **Cache, as seen from outside**: every verdict handed out is explained by what the directory
+offered at the `IsAdminUser` calls of the history (`blackboxOK`: same value offered for that user at
+some earlier call, less than `maxDur` ago unless a lookup for that user failed less than `maxDur`
+ago; or `false` after a failed lookup). This is the predicate the judge applies to the verdicts of
+the real `IsAdminUser` (instantiated at every prefix of the observed history). -/
+theorem c08_cache_observable (maxDur : Nat) (hmax : 0 < maxDur) (t0 : Nat) (evs : List Ev) :
+    ∀ r ∈ (crun maxDur (CState.init t0) evs).rets,
+      blackboxOK maxDur (crun maxDur (CState.init t0) evs).offered r.t r.user r.verdict = true :=
+  fun r hr => blackbox_of_goodRet (sub_run evs (fun _ h => (by cases h)))
+    (c08_cache_outage maxDur hmax t0 evs r hr)
+
+/-- the lifetime the daemon configures is the property's five minutes -/
+theorem c08_cache_lifetime :
+    KM.Gen.c08AdminCacheLifetimes = [5 * 60 * 1000000000] ∧
+    KM.Gen.c08AdminCacheLifetimesEvaluated = true ∧
+    KM.Gen.c08AdminCacheLifetimeNs = 300000000000 ∧ 0 < KM.Gen.c08AdminCacheLifetimeNs := by
+  decide
+
+/-- **Fail closed**: `IsAdminUser` never reports an administrator unless the directory itself said so
+for that user at some earlier moment. -/
+theorem c08_cache_fail_closed (maxDur : Nat) (hmax : 0 < maxDur) (t0 : Nat) (evs : List Ev) :
+    ∀ r ∈ (crun maxDur (CState.init t0) evs).rets, r.verdict = true →
+      ∃ t', t' ≤ r.t ∧ (⟨t', r.user, some true⟩ : Consult) ∈
+        (crun maxDur (CState.init t0) evs).consults := by
+  intro r hr hv
+  have hg := c08_cache_outage maxDur hmax t0 evs r hr
+  unfold GoodRet at hg
+  cases ho : r.origin with
+  | none => rw [ho] at hg; rw [hg.1] at hv; cases hv
+  | some t' =>
+    rw [ho] at hg
+    exact ⟨t', hg.1, hv ▸ hg.2.1⟩
+
+/-- **End to end**: with the cache in front of the directory (configured lifetime) and the directory
+answering, a user-administration request or a change of another user's tokens that gets past its
+gate on the strength of `IsAdminUser`'s verdict at time `t` is backed by a directory lookup at most
+five minutes old that called the actor an administrator. -/
+theorem c08_admin_cached (t0 : Nat) (evs : List Ev) (hdir : ∀ u, Ev.call u none ∉ evs)
+    (op : Op) (level : Nat) (target : Name) (cfg : Cfg) (autoV : Option Bool) (eff : Name) :
+    ∀ r ∈ (crun KM.Gen.c08AdminCacheLifetimeNs (CState.init t0) evs).rets,
+      authorizeV op r.user level target cfg r.verdict autoV = .pass eff →
+      (op.userAdmin = true ∨ (op.tokenOp = true ∧ eff ≠ r.user)) →
+      ∃ t', t' ≤ r.t ∧ r.t - t' < 5 * 60 * 1000000000 ∧
+        (⟨t', r.user, some true⟩ : Consult) ∈
+          (crun KM.Gen.c08AdminCacheLifetimeNs (CState.init t0) evs).consults := by
+  intro r hr hp hop
+  have hv : r.verdict = true := by
+    unfold authorizeV at hp
+    split at hp
+    · cases hp
+    · rcases hop with hop | ⟨hop, hne⟩
+      · cases op <;> simp [Op.userAdmin] at hop <;> exact (gateAdmin_pass hp).2
+      · have key : eff = target ∧ (target = r.user ∨ (r.verdict = true ∧ u2fBit level = true)) := by
+          cases op <;> simp [Op.tokenOp] at hop <;> exact gateToken_pass hp
+        obtain ⟨he, ht | ⟨ha, _⟩⟩ := key
+        · exact absurd (he.trans ht) hne
+        · exact ha
+  obtain ⟨t', _, h1, h2, h3⟩ :=
+    c08_cache KM.Gen.c08AdminCacheLifetimeNs c08_cache_lifetime.2.2.2 t0 evs hdir r hr
+  refine ⟨t', h1, ?_, hv ▸ h3⟩
+  have : KM.Gen.c08AdminCacheLifetimeNs = 5 * 60 * 1000000000 := by decide
+  omega
+
+/-! ### non-vacuity -/
+
+def exCfg : Cfg :=
+  { adminUsers := ["adm".toList], adminGroups := ["admins".toList],
+    automationUsers := ["robot".toList], automationUserGroups := [],
+    automationAdmins := ["auto".toList], webUIRequired := 2 ||| 8 ||| 64 }
+
+def exGroups : Groups := fun u =>
+  if u = "gadm".toList then some ["staff".toList, "admins".toList]
+  else if u = "ldapdown".toList then none
+  else some []
+
+/-- an administrator (by name or by group) with U2F IS allowed to manage another user's token -/
+example : authorize (.manageU2F .delete) "adm".toList (2 ||| 8) "bob".toList exCfg exGroups
+    = .pass "bob".toList := by decide
+example : authorize (.manageTOTP .disable) "gadm".toList (2 ||| 8) "bob".toList exCfg exGroups
+    = .pass "bob".toList := by decide
+/-- … but not without the U2F bit, and not when the directory does not answer for a group admin -/
+example : authorize (.manageU2F .delete) "adm".toList (2 ||| 64) "bob".toList exCfg exGroups
+    = .deny .notSelf := by decide
+example : authorize .listUsers "ldapdown".toList 2 [] exCfg exGroups = .deny .notAdmin := by decide
+/-- a plain user IS allowed to manage the own tokens and to register new ones -/
+example : authorize (.manageU2F .update) "alice".toList 2 "alice".toList exCfg exGroups
+    = .pass "alice".toList := by decide
+example : authorize .waRegFinish "alice".toList 2 "alice".toList exCfg exGroups
+    = .pass "alice".toList := by decide
+example : authorize .u2fRegBegin "alice".toList (2 ||| 8) "bob".toList exCfg exGroups
+    = .deny .notSelf := by decide
+/-- an automation administrator obtains a certificate for a configured identity only -/
+example : authorize .roleCert "auto".toList 2 "robot".toList exCfg exGroups
+    = .pass "robot".toList := by decide
+example : authorize .roleCert "auto".toList 2 "alice".toList exCfg exGroups
+    = .deny .notAutoUser := by decide
+/-- the hypotheses of `c08_cache` are satisfiable and the cache does serve from memory -/
+example : ((crun 300 (CState.init 1000)
+    [.call "adm".toList (some true), .advance 299, .call "adm".toList (some false),
+     .advance 1, .call "adm".toList (some false)]).rets.map (fun r => (r.t, r.verdict, r.origin)))
+    = [(1300, false, some 1300), (1299, true, some 1000), (1000, true, some 1000)] := by decide
+/-- the fallback: an expired `true` is re-stamped on a lookup error and served for another lifetime -/
+example : ((crun 300 (CState.init 1000)
+    [.call "adm".toList (some true), .advance 300, .call "adm".toList none,
+     .advance 299, .call "adm".toList (some false)]).rets.map (fun r => (r.t, r.verdict, r.origin)))
+    = [(1599, true, some 1000), (1300, true, some 1000), (1000, true, some 1000)] := by decide
+
+/-! ### every handler of the current source tree (regenerated table) -/
+
+def lookupFact (n : List Char) : Option KM.AdminSite.HandlerFact :=
+  (KM.Gen.c08Handlers.find? (fun p => p.1 == n)).map (·.2)
+
+def lookupRoute (path : List Char) : List (List Char) :=
+  (KM.Gen.c08Routes.filter (fun p => p.1 == path)).map (·.2)
+
+open KM.AdminSite in
+/-- a profile key that is not the authenticated user's own name -/
+def namesOther : Src → Bool
+  | .authUser | .param => false
+  | _ => true
+
+/-- **Sites**: for every operation, the handler bound to its URL consults exactly the gate, compares
+exactly the pair of names and keys its profile accesses exactly as `authorize` was transcribed
+(`spec`); the helper gate of the user-administration handlers tests `IsAdminUser(authUser)`; and the
+only functions that write a profile under a name other than the authenticated user's own are
+handlers of the operation list. -/
+theorem c08_sites :
+    allOps.all (fun op => lookupFact (handlerName op) == some (spec op)) = true ∧
+    allOps.all (fun op => lookupRoute (routePath op) == [handlerName op]) = true ∧
+    lookupFact "sendFailureToClientIfNonAdmin".toList ==
+      some { gate := .isAdminUser, cond := .notGate, cmp := .none, keys := [], gateFirst := true } ∧
+    KM.Gen.c08Writers.all (fun w =>
+      w.2.all (· != KM.AdminSite.Src.unknown) &&
+      (!(w.2.any namesOther) || allOps.any (fun op => handlerName op == w.1))) = true := by
+  decide
+
+/-- **Helpers**: the small functions the model transcribes literally still read as transcribed. -/
+theorem c08_helpers :
+    KM.Gen.c08Helpers =
+    [("IsAdminUser".toList, "{ isAdmin, valid := state.isAdminCache.Get(user) if valid { return isAdmin } newIsAdmin, err := state._IsAdminUser(user) if err == nil { state.isAdminCache.Put(user, newIsAdmin) return newIsAdmin } state.isAdminCache.Put(user, isAdmin) return isAdmin }".toList),
+     ("IsAdminUserAndU2F".toList, "{ return state.IsAdminUser(user) && ((loginLevel & AuthTypeU2F) != 0) }".toList),
+     ("isAutomationAdmin".toList, "{ isAdmin := state.IsAdminUser(user) if isAdmin { return true } for _, adminUser := range state.Config.Base.AutomationAdmins { if user == adminUser { return true } } return false }".toList),
+     ("admincache.get".toList, "{ if c == nil { return false, false } c.mu.Lock() defer c.mu.Unlock() entry := c.data[user] return entry.IsAdmin, c.isValid(entry.Ts) }".toList),
+     ("admincache.put".toList, "{ if c == nil { return } c.mu.Lock() defer c.mu.Unlock() c.data[user] = cacheEntry{IsAdmin: isAdmin, Ts: c.clock.Now()} }".toList),
+     ("admincache.isValid".toList, "{ if ts.IsZero() { return false } return c.clock.Now().Sub(ts) < c.maxDuration }".toList),
+     ("admincache.New".toList, "{ return newForTesting(maxDuration, kSystemClock) }".toList)] := by
+  unfold KM.Gen.c08Helpers
+  with_reducible rfl
+
+end KM.Admin
